@@ -171,6 +171,8 @@ def structural(rec, tag, op, T, env_pt):
     if A is not None and A.size:
         ok = ok and A.shape[0] == len(op.b) == len(op.cType or '')
     (_ok if ok else lambda r, nm: _fail(r, nm, dict(kind='lengths', tag=tag, env=env_pt)))(rec, tag + '/lengths')
+    if not ok:
+        return False      # vectors and matrix disagree in size: nothing further can be said about this problem
     mp = op.mapping
     if mp is not None and len(mp):
         idx = np.asarray(mp.index, dtype=float)
@@ -189,6 +191,7 @@ def structural(rec, tag, op, T, env_pt):
             if not isinstance(v, Sym) and v != v:
                 nan = True
     (_ok if not nan else lambda r, nm: _fail(r, nm, dict(kind='nan', tag=tag, env=env_pt)))(rec, tag + '/no_nan')
+    return True
 
 
 def run_split(rec, seed, shape, kw, split, level):
@@ -243,9 +246,11 @@ def run_case(case_id, tier, seed, shape, kw, split, level):
         tg = sc.sh.tg
         op = sc.op
         P = 'p%d' % pi
-        structural(rec, P + '/portfolio', op, tg.T, env_pt)
+        sizes_ok = structural(rec, P + '/portfolio', op, tg.T, env_pt)
         for b in sc.blocks:
-            structural(rec, P + '/asset/' + b.asset, b, tg.T, env_pt)
+            sizes_ok = structural(rec, P + '/asset/' + b.asset, b, tg.T, env_pt) and sizes_ok
+        if not sizes_ok:
+            continue
         lp = lpsem.LP(op)
         n = lp.n
         # ---- internal (boolean) variables are mapped to the step of the dispatch variables they switch
